@@ -5,6 +5,7 @@ import (
 	"math"
 	"math/big"
 	"sort"
+	"strconv"
 
 	"github.com/DataDog/sketches-go/ddsketch/store"
 )
@@ -24,3 +25,5 @@ func bigSum(vals []float64) (float64, float64) {
 }
 
 func layoutOf(s store.Store) store.VerifLayout { return store.VerifLayoutOf(s) }
+
+func trimFloat(f float64) string { return strconv.FormatFloat(f, 'g', -1, 64) }
